@@ -133,9 +133,8 @@ def ErrFacts.freshCopy (f : ErrFacts) (cls : String) : Bool :=
   f.copyOverrides.contains (cls ++ ".__copy__", "fresh")
 
 def expectedExitShape : List String :=
-  ["err = None", "err = copy.copy(e)", "if err.args != e.args:", "err = e", "err = e", "err._set_wrapped(e)",
-   "err = GlomError.wrap(e)", "if isinstance(err, GlomError):", "err._finalize(scope[LAST_CHILD_SCOPE])",
-   "if err is not None:", "raise err"]
+  ["err = copy.copy(e)", "if err.args != e.args:", "err = e", "err = e", "err._set_wrapped(e)",
+   "err = GlomError.wrap(e)", "err._finalize(scope[LAST_CHILD_SCOPE])"]
 
 def ErrFacts.WF (f : ErrFacts) : Bool :=
   -- the model knows every attribute the message depends on …
